@@ -27,6 +27,10 @@ def run(tier):
         steps, mods = feat_repl.history(rng.fork(str(i)))
         plist.append({"name": "hist/%d" % i, "steps": steps, "mods": mods})
 
+    r3 = ck.rng.fork("hist2")
+    for i in range(300 if quick else 10000 * common.TS):
+        steps, mods = feat_repl.history2(r3.fork(str(i)))
+        plist.append({"name": "hist2/%d" % i, "steps": steps, "mods": mods})
     r2 = ck.rng.fork("host")
     for i in range(300 if quick else 10000 * common.TS):
         steps, mods = feat_repl.host_history(r2.fork(str(i)))
